@@ -6,12 +6,12 @@
 (* for the stateful events, from the abstract register file the specification  *)
 (* itself maintains), and records every disagreement in `bad` instead of       *)
 (* blocking, so that the rest of the trace is still examined.                  *)
-EXTENDS TracePair, Json, IOUtils
+EXTENDS TraceTower, Json, IOUtils
 Rec == ndJsonDeserialize(IOEnv.TRACE)
 \* NB: variable names must not coincide with any LET-bound name of the (instantiated) Level-A modules: TLC then treats
 \* constant definitions such as GT as state-dependent and re-evaluates them at every use (measured: 1.5 s per pairing event)
-VARIABLES tpos, tbad
-vars == <<tpos, tbad>>
+VARIABLES tpos, tbad, tm          \* position in the trace, mismatches so far, [ok, reg]: verdict of the last step and the register file
+vars == <<tpos, tbad, tm>>
 Known(e) == e.op \in {"f.add", "f.sub", "f.mul", "f.neg", "f.inv", "f.pow", "f.is_zero", "f.is_even", "f.eq", "f.sqrt",
                       "f.from_slice", "f.try_from", "f.interpret", "f.from_str", "f.from_hash", "f.roundtrip",
                       "f.to_big_endian", "f.set_bit",
@@ -19,7 +19,7 @@ Known(e) == e.op \in {"f.add", "f.sub", "f.mul", "f.neg", "f.inv", "f.pow", "f.i
                       "f2.laws", "f2.sqrt",
                       "g.add", "g.sub", "g.neg", "g.laws", "g.mul", "g.rmul", "g.modlaws", "g.eq", "g.normalize", "g.to_affine",
                       "g.encode", "g.decode", "g.affine_new",
-                      "gt.one", "gt.mul", "gt.eq", "gt.pow", "gt.inv", "gt.laws", "pair", "pair.laws", "prep.reuse"}
+                      "gt.one", "gt.mul", "gt.eq", "gt.pow", "gt.inv", "gt.laws", "pair", "pair.laws", "prep.reuse"} \cup TowerOps
 Chk(e) == CASE e.op \in {"f.add", "f.sub", "f.mul"} -> ChkFBin(e)
             [] e.op = "f.neg" -> ChkFNeg(e)
             [] e.op = "f.inv" -> ChkFInv(e)
@@ -64,13 +64,18 @@ Chk(e) == CASE e.op \in {"f.add", "f.sub", "f.mul"} -> ChkFBin(e)
             [] e.op = "pair" -> ChkPair(e)
             [] e.op = "pair.laws" -> ChkPairLaws(e)
             [] e.op = "prep.reuse" -> ChkPrepReuse(e)
+            [] e.op \in TowerOps -> ChkTower(e)
 \* a panic or a hang of the code under test is never allowed; an unknown event is a tooling error and is reported too
-Verdict(e) == IF ~Known(e) THEN "unknown-op" ELSE IF e.panic THEN "panic" ELSE IF Chk(e) THEN "ok" ELSE "mismatch"
-Init == tpos = 1 /\ tbad = <<>>
+KnownAny(e) == Known(e) \/ e.op \in MachineOps
+Why(e) == IF ~KnownAny(e) THEN "unknown-op" ELSE IF e.panic THEN "panic" ELSE "mismatch"
+Init == tpos = 1 /\ tbad = <<>> /\ tm = [ok |-> TRUE, reg |-> <<>>]
 Next == /\ tpos <= Len(Rec)
         /\ tpos' = tpos + 1
-        /\ LET v == Verdict(Rec[tpos])
-           IN tbad' = IF v = "ok" \/ Len(tbad) >= 200 THEN tbad
-                      ELSE Append(tbad, [seq |-> Rec[tpos].seq, op |-> Rec[tpos].op, why |-> v])
+        /\ tm' = LET e == Rec[tpos]
+                 IN IF ~KnownAny(e) \/ e.panic THEN [ok |-> FALSE, reg |-> tm.reg]
+                    ELSE IF e.op \in MachineOps THEN MStep(e, tm.reg)          \* stateful: the specification's own registers
+                    ELSE [ok |-> Chk(e), reg |-> tm.reg]                       \* stateless: outputs from logged inputs
+        /\ tbad' = IF tm'.ok \/ Len(tbad) >= 200 THEN tbad
+                   ELSE Append(tbad, [seq |-> Rec[tpos].seq, op |-> Rec[tpos].op, why |-> Why(Rec[tpos])])
 Done == tpos = Len(Rec) + 1 => PrintT(<<"DONE", ToJson([n |-> Len(Rec), consumed |-> tpos - 1, bad |-> tbad])>>)
 =============================================================================
